@@ -83,6 +83,11 @@ fn check_mig(prop: &str, tier: Tier, tier_s: &str) -> i32 {
         eprintln!("  [{prop}] closure {n}: {} states, depth {}, exhaustive {}", s.states, s.depth, s.exhaustive);
     }
     eprintln!("  [{prop}] books {} old-format twins {} migrate calls {} (accepted {} refused {} aborted {})", out.books, out.twins, out.migrate_calls, out.accepted, out.refused, out.aborted);
+    {
+        let o3 = mig::run_crowded(tier);
+        eprintln!("  [{prop}] crowded books: {} books, {} migrate calls", o3.books, o3.migrate_calls);
+        out.merge_pub(o3);
+    }
     let mut logs_calls = 0;
     if prop == "C15" {
         let o2 = mig::run_all_logs(tier);
